@@ -23,7 +23,7 @@ LEVEL = "exploration"
 RULE = ("(a) draw_initial_samples: proposal with K=4 support points of which 2 lie outside the prior, requested n in {1,2,3}, "
         "every sequence of draws (complete tree; after 3 rejection rounds the menu offers only in-prior points - stated horizon) "
         "x sampler class x namespace; (b) sampler {importance, emcee, minipcn, smc, emcee_smc, blackjax_smc} x preconditioning x "
-        "namespace x dtype x n_final x seeds: every population (final, history, checkpoint payloads, resumed) recomputed; "
+        "namespace x dtype x n_final x seeds x {no pool, inside enable_pool with a pool that also offers an unordered map, likelihood only / likelihood and prior}: every population (final, history, checkpoint payloads, resumed) recomputed; "
         "(c) every execution of small lattice SMC trees. non-trivial = population in which some particle was rejected, resampled, "
         "moved or restored; distinct = distinct (config, choice sequence / population)")
 ASSUMPTIONS = [
@@ -146,6 +146,10 @@ def run_populations(cfg):
                 r.violation(f"C10/{cfg['sampler']}/final-size/{stage}", {"got": len(run.result["final"]["x"]), "want": cfg["n_final"]}, case)
 
     check(R, "fresh")
+    if cfg.get("pool"):
+        if R.mon.map_fn_calls == 0:
+            raise explorer.HarnessError("pool run never handed a map function to the user's callables")
+        r.count("pool_runs")
     if cfg["sampler"] in ("smc", "emcee_smc") and R.sink:
         done = set()
         for it, payload in R.sink:
@@ -253,6 +257,13 @@ def configs(tier, seed):
                                             "ns": "numpy", "dtype": None, "mcmc_opts": mo}))
         out.append(("run_populations", {"sampler": "emcee", "N": 8, "opts": {}, "cadence": 2, "n_final": None, "precond": precond, "seed": 0,
                                         "ns": "numpy", "dtype": None, "mcmc_opts": {"discard": 1}}))
+    # runs inside Aspire.enable_pool: the user's callables evaluate row by row through the map function they are handed
+    for sampler in ("importance", "emcee", "minipcn", "smc", "emcee_smc"):
+        for pool in (True, "prior"):
+            for precond in ("none", "tight") if sampler != "importance" else ("none",):
+                out.append(("run_populations", {"sampler": sampler, "N": 8, "opts": {"adaptive": True, "target_efficiency": 0.8} if sampler in ("smc", "emcee_smc") else {},
+                                                "cadence": 2, "n_final": 12 if sampler in ("smc", "emcee_smc") else None, "precond": precond,
+                                                "seed": 0, "ns": "numpy", "dtype": None, "pool": pool}))
     for pre in ("none", "logit"):
         out.append(("run_populations", {"sampler": "blackjax_smc", "N": 8, "seed": 0, "opts": {"adaptive": True, "target_efficiency": 0.8},
                                         "n_final": 12, "precond": pre}))
